@@ -41,7 +41,8 @@ def to_rat(x, tol=12):
         if x != x or x in (float("inf"), float("-inf")):
             raise Inexact()
         fr = F(x).limit_denominator(10 ** 6)
-        if abs(fr - F(x)) > F(1, 10 ** tol) * max(1, abs(fr)):
+        # relative to the value itself: a tiny quotient (1/4410000) must not be "recovered" as 0
+        if abs(fr - F(x)) > F(1, 10 ** tol) * abs(F(x)):
             raise Inexact()
     r = rnorm(fr)
     if abs(r[0]) >= 2 ** 30 or r[1] >= 2 ** 30 or abs(r[2]) > 12:
